@@ -201,9 +201,10 @@ def models(tier, seed):
         return []
     q = tier == "quick"
 
-    def cfg(ratio, wd, rd, m2s, s2m, bug="none", fin="FinTwo", P=1):
-        return ("SPECIFICATION Spec\nCONSTANTS P = %d\n Ratio = %d\n WD = %d\n RD = %d\n CmdVals = {0, 1}\n ChunkVals = {0, 1}\n FinVals <- %s\n"
-                " Bug = \"%s\"\n DriveM2S = %s\n DriveS2M = %s\nINVARIANT ReqOK\n" % (P, ratio, wd, rd, fin, bug, "TRUE" if m2s else "FALSE", "TRUE" if s2m else "FALSE"))
+    def cfg(ratio, wd, rd, m2s, s2m, bug="none", fin="FinTwo", P=1, cmdvals="{0, 1}", chunkvals="{0, 1}"):
+        return ("SPECIFICATION Spec\nCONSTANTS P = %d\n Ratio = %d\n WD = %d\n RD = %d\n CmdVals = %s\n ChunkVals = %s\n FinVals <- %s\n"
+                " Bug = \"%s\"\n DriveM2S = %s\n DriveS2M = %s\nINVARIANT ReqOK\n" % (P, ratio, wd, rd, cmdvals, chunkvals, fin, bug,
+                                                                                     "TRUE" if m2s else "FALSE", "TRUE" if s2m else "FALSE"))
     ms = [dict(module="MC_RateConv", cfg=cfg(2, 1, 0, True, False), workers=3, timeout=900, label="RateConv ratio2 controller->PHY, all sequences (wd=1)"),
           dict(module="MC_RateConv", cfg=cfg(2, 0, 1, False, True), workers=3, timeout=900, label="RateConv ratio2 PHY->controller, all sequences (rd=1)"),
           dict(module="MC_RateConv", cfg=cfg(2, 0, 0, True, False, bug="ser_order"), workers=2, timeout=600, label="NEG phase interleaving order reversed", expect_violation=True),
@@ -213,7 +214,11 @@ def models(tier, seed):
         ms += [dict(module="MC_RateConv", cfg=cfg(2, 0, 1, True, False), workers=3, timeout=900, label="RateConv ratio2 controller->PHY (wd=0)"),
                dict(module="MC_RateConv", cfg=cfg(2, 1, 0, False, True), workers=3, timeout=900, label="RateConv ratio2 PHY->controller (rd=0)"),
                dict(module="MC_RateConv", cfg=cfg(2, 0, 1, False, True, fin="FinFour"), workers=4, timeout=1500, label="RateConv ratio2 PHY->controller, valid independent of data"),
-               dict(module="MC_RateConv", cfg=cfg(2, 1, 1, True, False, P=2), workers=4, timeout=1500, label="RateConv ratio2, 2 fast phases, controller->PHY")]
+               dict(module="MC_RateConv", cfg=cfg(2, 1, 1, True, False, P=2, chunkvals="{0}"), workers=4, timeout=1500, label="RateConv ratio2, 2 fast phases, commands"),
+               dict(module="MC_RateConv", cfg=cfg(2, 1, 1, True, False, P=2, cmdvals="{0}"), workers=4, timeout=1500, label="RateConv ratio2, 2 fast phases, write bursts"),
+               dict(module="MC_RateConv", cfg=cfg(4, 2, 0, True, False, chunkvals="{0}"), workers=4, timeout=1500, label="RateConv ratio4, commands"),
+               dict(module="MC_RateConv", cfg=cfg(4, 2, 0, True, False, cmdvals="{0}"), workers=4, timeout=1500, label="RateConv ratio4, write bursts (wd=2)"),
+               dict(module="MC_RateConv", cfg=cfg(4, 0, 3, False, True), workers=4, timeout=1500, label="RateConv ratio4 PHY->controller (rd=3)")]
     return ms
 
 
